@@ -117,12 +117,19 @@ static Strict ref_strict(const uint8_t *d, size_t n) {
 //   L1 class not examined; L2 RDLENGTH of A / CNAME records not cross-checked (both framings followed);
 //   L3 label bytes 0x40..0xbf accepted as lengths; L4/L5 see render(). A value outside this set cannot
 // come from the datagram under any reading.
+//   L6 the owner name of a record and the question name are not reported, so only their framing counts: labels
+//      are skipped, a compression pointer ends the name after its two bytes, its target is not examined.
 struct Generous { std::set<Addr> a; std::set<std::string> c; size_t max_a = 0, max_c = 0; };
+static bool skip_name(const uint8_t *d, size_t n, size_t off, size_t &end) {
+  for (;;) { if (off >= n) return false; uint8_t l = d[off]; if (l == 0) { end = off + 1; return true; }
+    if ((l & 0xc0) == 0xc0) { if (off + 2 > n) return false; end = off + 2; return true; }
+    if (off + 1 + l > n) return false; off += 1 + (size_t)l; }
+}
 static void gen_rr(const uint8_t *d, size_t n, size_t off, unsigned left, size_t na, size_t nc, Generous &g, int depth) {
   if (na > g.max_a) g.max_a = na; if (nc > g.max_c) g.max_c = nc;
   if (left == 0 || off >= n || depth > 64) return;
-  NameRes o = ref_name(d, n, off, true); if (!o.ok) return;
-  off = o.end; if (off + 10 > n) return;
+  if (!skip_name(d, n, off, off)) return;
+  if (off + 10 > n) return;
   unsigned type = rd16(d, off), rdlen = rd16(d, off + 8); size_t rdata = off + 10;
   if (type == 1) {
     if (rdata + 4 > n) return;
@@ -144,7 +151,7 @@ static Generous ref_generous(const uint8_t *d, size_t n) {
   if (n < 12) return g;
   unsigned flags = rd16(d, 2); if (!(flags & 0x8000) || (flags & 0xf)) return g;
   unsigned qd = rd16(d, 4), an = rd16(d, 6); size_t off = 12;
-  for (unsigned i = 0; i < qd; i++) { if (off >= n) return g; NameRes q = ref_name(d, n, off, true); if (!q.ok) return g; off = q.end; if (off + 4 > n) return g; off += 4; }
+  for (unsigned i = 0; i < qd; i++) { if (off >= n) return g; if (!skip_name(d, n, off, off)) return g; if (off + 4 > n) return g; off += 4; }
   gen_rr(d, n, off, an, 0, 0, g, 0);
   return g;
 }
